@@ -1,4 +1,5 @@
 import AmVerif.Proofs.LocalSplice
+import AmVerif.Proofs.ObjIds
 /-
   C30 — "Object ids stay valid and stable: An object id returned by the API keeps referring to the
   same object, usable for reads and edits, after any merges, loads, forks and actor-table changes,
@@ -29,12 +30,6 @@ def mkM' : Op := ⟨⟨1, [0xB]⟩, .root, .map [109], false, .make .map, []⟩
 def putK' : Op := ⟨⟨2, [0xB]⟩, .id ⟨1, [0xB]⟩, .map [107], false, .put (.int 6), []⟩
 def opsA : List Op := [mkM, putK, mkL, ins7]
 def opsB : List Op := [mkM', putK']
-
-/-- every op belongs to the root or to an object some make op of the set created -/
-def ObjsExist (ops : List Op) : Prop :=
-  ∀ x ∈ ops, match x.obj with
-    | .root => True
-    | .id i => ∃ m ∈ ops, m.id = i ∧ ∃ ty, m.action = .make ty
 
 /-- "keeps referring to the same object … after any merges, loads, forks": an id that names an
     object of type `t` in an op set names an object of the same type in every op set that
